@@ -104,6 +104,8 @@ def crash_recover(trace, rc):
     complete lines, re-run the same prefix with the crashing op observed structurally only (dumps),
     and append a final `crashed` event."""
     lines = []
+    if not os.path.exists(trace):
+        open(trace, "w").close()     # the driver died before it produced anything (warm-up)
     for l in open(trace, errors="replace"):
         if l.endswith("\n"):
             try:
@@ -141,8 +143,10 @@ def crash_recover(trace, rc):
             f.write(l)
         if light:
             f.write(light + "\n")
-        f.write(json.dumps({"op": "crashed", "was": (cur or {}).get("op", "?"), "rc": rc,
-                            "args": cur, "w": (cur or {}).get("w", 1)}) + "\n")
+        ev = {"op": "crashed", "was": (cur or {}).get("op", "warm-up"), "rc": rc, "w": (cur or {}).get("w", 1)}
+        if cur is not None:
+            ev["args"] = cur      # (TLC's Json module rejects null)
+        f.write(json.dumps(ev) + "\n")
 
 def run_world(tier, seed, scripts_only=None):
     """Returns the cached-or-fresh result dict of the world pipeline."""
